@@ -27,6 +27,8 @@ type schedAgg struct {
 	Mutates     int
 	GCs         int
 	Errored     int
+	True        int
+	False       int
 	Panicked    int
 	OrderDec    int
 	ByPolicy    map[string]int
@@ -60,6 +62,8 @@ type schedResultDoc struct {
 	Mutates    int      `json:"mutations"`
 	GCs        int      `json:"gcs"`
 	Errored    int      `json:"ops_errored"`
+	True       int      `json:"ops_true"`
+	False      int      `json:"ops_false"`
 	Panicked   int      `json:"ops_panicked"`
 	OrderDec   int      `json:"order_decisions"`
 	Nontrivial bool     `json:"nontrivial"`
@@ -84,6 +88,8 @@ func (a *schedAgg) add(d map[string]json.RawMessage, conc bool) {
 	a.Mutates += r.Mutates
 	a.GCs += r.GCs
 	a.Errored += r.Errored
+	a.True += r.True
+	a.False += r.False
 	a.Panicked += r.Panicked
 	a.OrderDec += r.OrderDec
 	a.ByPolicy[r.Policy]++
